@@ -19,7 +19,8 @@
    * RENAME creates missing superior names of the destination (RFC 3501 6.3.5 SHOULD);
    * RENAME INBOX moves the messages (flags intact, UIDs assigned by the new mailbox) and leaves
      INBOX empty, inferiors of INBOX stay;
-   * names that MH cannot hold (only digits, only white space) are refused by CREATE/RENAME;
+   * names that MH cannot hold (only digits, a level of only white space) are refused by
+     CREATE/RENAME;
    * guard [name_ok]: names with an empty level, and names of more than one level whose first
      level is a spelling of INBOX other than "inbox" or which have a level of digits only, are
      outside the reference model (refused, nothing changes). *)
@@ -94,9 +95,10 @@ Definition name_ok (n : name) : bool :=
   | c :: _ :: _ => implb (ceqb (lower c) (la "inbox")) (ceqb c (la "inbox")) && negb (existsb all_digits n)
   | _ => true
   end.
-(* acceptable as the name of a new mailbox: not INBOX, not only digits, not only white space *)
+(* acceptable as the name of a new mailbox: not INBOX, not only digits, no level that is only
+   white space *)
 Definition new_name_ok (n : name) : bool :=
-  negb (is_inbox n) && negb (existsb all_digits n) && negb (forallb is_space (flat n)).
+  negb (is_inbox n) && negb (existsb all_digits n) && negb (existsb (forallb is_space) n).
 
 (* ------------------------------------------------------------------ the reference tree *)
 Record msg := { m_uid : Z; m_cid : Z; m_flags : Z }.
